@@ -440,10 +440,23 @@ fn check_tx_validity<C: ContentAddrStore>(
 }
 
 fn proof_is_tip910(proof: Proof, puzzle: &HashVal, difficulty: u32) -> Result<bool, StateError> {
+    // melpow's verifier indexes straight into the proof's node map and panics ("no entry found for
+    // key") when a node it needs is missing, e.g. for an empty or truncated proof. Such a proof is
+    // simply invalid; it must not take the validator down.
+    let verify_legacy = std::panic::catch_unwind(std::panic::AssertUnwindSafe(|| {
+        proof.verify(puzzle, difficulty as _, LegacyMelPowHash)
+    }))
+    .unwrap_or(false);
+    let verify_tip910 = || {
+        std::panic::catch_unwind(std::panic::AssertUnwindSafe(|| {
+            proof.verify(puzzle, difficulty as _, Tip910MelPowHash)
+        }))
+        .unwrap_or(false)
+    };
     // try verifying the proof under the old and the new system
-    if proof.verify(puzzle, difficulty as _, LegacyMelPowHash) {
+    if verify_legacy {
         Ok(false)
-    } else if proof.verify(puzzle, difficulty as _, Tip910MelPowHash) {
+    } else if verify_tip910() {
         Ok(true)
     } else {
         Err(StateError::InvalidMelPoW)
